@@ -603,7 +603,10 @@ class Interp:
                 for m in reversed(members[:-1]):
                     r = z3.If(obj.t == m.value, z3.StringVal(m.name), r)
                 return SStr(simp(r))
-        # builtin-typed values: methods handled by lib
+        # builtin-typed values: methods handled by lib; a name the real type does not have is an AttributeError, as in CPython
+        nt = type_of(obj)
+        if nt is not object and not hasattr(nt, name):
+            self.raise_(AttributeError, f"'{nt.__name__}' object has no attribute '{name}'")
         return SConst(("method", obj, name))
 
     def bind_classattr(self, obj, k, name, attr):
